@@ -271,7 +271,7 @@ def run(chk, replay=None):
     r = chk.tlc(name, cfg, label="emit histories depth %d" % depth, extra_modules={name: mod}, workers=1)
     behs = [v[0]["steps"] for tag, v in r.printed if tag == "BEH"]
     # loop-shaped histories (one response, then seed / sensitivity / reset cycles with changing seeds) to a larger depth
-    ds = 8 if thorough else 6
+    ds = 7 if thorough else 6
     name, mod, cfg = mc(consts(ds, True), spec="SpecS", invariants=["Emit"])
     r = chk.tlc(name, cfg, label="emit loop-shaped histories depth %d" % ds, extra_modules={name: mod}, workers=1)
     behs += [v[0]["steps"] for tag, v in r.printed if tag == "BEH"]
